@@ -338,7 +338,7 @@ static bool check_one(std::string const& tmpl, std::vector<std::string> const& v
   return ok;
 }
 
-static std::vector<std::string> const TOKENS = {"a", " ", "{{", "}}", "{x}", "{y:>4}", "{z:.2}", "{n1}", "{x:*^5}", ","};
+static std::vector<std::string> const TOKENS = {"a", " ", "{{", "}}", "{x}", "{y:>4}", "{z:.2}", "{n1}", "{x:*^5}", ",", "{w::>6}"}; // the last one: ':' as the fill character, the spec itself contains a colon
 
 static void run_templates(vf::Args const& a)
 {
@@ -644,6 +644,83 @@ static void run_json(vf::Args const& a)
   vf::J("note").s("msg", "json statements written: " + std::to_string(n + 1)).emit();
 }
 
+// ---- reuse of event objects: backtrace ring slots and backend transit slots hold statements of different kinds one after
+// the other (named / positional / without arguments); every statement the sink gets carries exactly its own pairs
+static void run_ring()
+{
+  setup();
+  static constexpr MacroMetadata bt_named{"/d/f.cpp:8", "fn", "bn {alpha} {beta:>4}", nullptr, LogLevel::Backtrace, MacroMetadata::Event::Log};
+  static constexpr MacroMetadata bt_named1{"/d/f.cpp:9", "fn", "b1 {gamma}", nullptr, LogLevel::Backtrace, MacroMetadata::Event::Log};
+  static constexpr MacroMetadata bt_pos{"/d/f.cpp:10", "fn", "bp {} / {}", nullptr, LogLevel::Backtrace, MacroMetadata::Event::Log};
+  static constexpr MacroMetadata bt_none{"/d/f.cpp:11", "fn", "b0", nullptr, LogLevel::Backtrace, MacroMetadata::Event::Log};
+  struct K
+  {
+    char const* message;
+    std::vector<std::pair<std::string, std::string>> pairs;
+  };
+  K const kinds[4] = {{"bn 11   22", {{"alpha", "11"}, {"beta", "  22"}}}, {"b1 7", {{"gamma", "7"}}}, {"bp 1 / 2", {}}, {"b0", {}}};
+  auto issue = [&](int k)
+  {
+    switch (k)
+    {
+    case 0: g_logger->log_statement<false, false>(LogLevel::None, &bt_named, 11, 22); break;
+    case 1: g_logger->log_statement<false, false>(LogLevel::None, &bt_named1, 7); break;
+    case 2: g_logger->log_statement<false, false>(LogLevel::None, &bt_pos, 1, 2); break;
+    default: g_logger->log_statement<false, false>(LogLevel::None, &bt_none); break;
+    }
+  };
+  // every sequence of up to 5 backtrace statements over the four kinds x ring capacity 1..3, flushed explicitly; then the same
+  // again without re-initialising (slots of the previous cycle are reused)
+  for (uint32_t cap = 1; cap <= 3; ++cap)
+    for (int len = 1; len <= 5; ++len)
+    {
+      int total = 1;
+      for (int i = 0; i < len; ++i) total *= 4;
+      for (int code = 0; code < total; ++code)
+      {
+        std::vector<int> seq;
+        for (int i = 0, c = code; i < len; ++i, c /= 4) seq.push_back(c % 4);
+        g_logger->init_backtrace(cap, LogLevel::Critical);
+        for (int p = 0; p < 3; ++p) g_worker->poll_one();
+        for (int cycle = 0; cycle < 2; ++cycle)
+        {
+          g_sink->got.clear();
+          for (int k : seq) issue(k);
+          g_logger->flush_backtrace();
+          for (int p = 0; p < 6; ++p) g_worker->poll_one();
+          size_t const n = std::min<size_t>(cap, seq.size());
+          ++g_eval;
+          std::string cs = "capacity " + std::to_string(cap) + " kinds";
+          for (int k : seq) cs += " " + std::to_string(k);
+          cs += cycle ? " (second cycle)" : "";
+          g_distinct.insert(vf::fnv(cs));
+          if (g_sink->got.size() != n)
+          {
+            ++g_viol;
+            if (g_sigs.insert("ring-count").second) vf::J("viol").s("kind", "backtrace-replay-count").s("case", cs).s("detail", std::to_string(g_sink->got.size()) + " statements replayed, expected " + std::to_string(n)).emit();
+            continue;
+          }
+          for (size_t i = 0; i < n; ++i)
+          {
+            K const& want = kinds[seq[seq.size() - n + i]];
+            Captured const& got = g_sink->got[i];
+            std::vector<std::pair<std::string, std::string>> const none;
+            auto const& gp = got.has_nargs ? got.nargs : none;
+            if (got.message != want.message || gp != want.pairs)
+            {
+              ++g_viol;
+              if (g_sigs.insert("ring-pairs").second || g_sigs.size() < 6)
+              {
+                g_sigs.insert(cs);
+                vf::J("viol").s("kind", "event-object-reuse-leaks-named-args").s("case", cs).s("detail", "replayed statement #" + std::to_string(i) + " '" + got.message + "' carries [" + pairs_str(gp) + "], expected '" + want.message + "' with [" + pairs_str(want.pairs) + "]").emit();
+              }
+            }
+          }
+        }
+      }
+    }
+}
+
 int main(int argc, char** argv)
 {
   vf::Args a{argc, argv};
@@ -670,6 +747,8 @@ int main(int argc, char** argv)
     run_logj();
   else if (mode == "json")
     run_json(a);
+  else if (mode == "ring")
+    run_ring();
   vf::J("stat").u("evaluations", g_eval).u("distinct_nontrivial", g_distinct.size()).u("mismatches_total", g_viol).emit();
   vf::done();
   return 0;
